@@ -658,10 +658,22 @@ def compare(chk, case, o, model_r, model_s, sim_line):
                 chk.disagree("stored", rep, "parser input: %d bytes" % len(b"".join(i_in)), "%d bytes" % len(b"".join(m_in)))
 
 
+def run_spread(exe, lines):
+    """run_parallel shards contiguous ranges; the expensive scenarios come in runs, so deal them round"""
+    import random
+    order = list(range(len(lines)))
+    random.Random(7).shuffle(order)
+    res = vlib.run_parallel(exe, [lines[i] for i in order], timeout=900, nshards=vlib.NCPU, batch=25)
+    out = [None] * len(lines)
+    for k, i in enumerate(order):
+        out[i] = res[k]
+    return out
+
+
 def evaluate(chk, cases, exe, mexe):
     sims = [render_sim(c) for c in cases]
     t0 = time.time()
-    impl = vlib.run_parallel(exe, [s[0] for s in sims], timeout=900, nshards=vlib.NCPU, batch=40)
+    impl = run_spread(exe, [s[0] for s in sims])
     chk.extra["impl_seconds"] = round(time.time() - t0, 1)
     obs = [parse_impl(l, s[1]) for l, s in zip(impl, sims)]
     model_r = model_s = None
@@ -669,7 +681,7 @@ def evaluate(chk, cases, exe, mexe):
         t0 = time.time()
         lines_r = [model_line_replay(c, o) if not o.crash else "R0" for c, o in zip(cases, obs)]
         lines_s = [model_line_stored(c) for c in cases]
-        both = vlib.run_parallel(mexe, lines_r + lines_s, timeout=900, nshards=vlib.NCPU, batch=40)
+        both = run_spread(mexe, lines_r + lines_s)
         model_r, model_s = both[:len(cases)], both[len(cases):]
         chk.extra["model_seconds"] = round(time.time() - t0, 1)
     for i, (case, o) in enumerate(zip(cases, obs)):
